@@ -82,6 +82,7 @@ type Net struct {
 	// NoOutgoingLoop disables delivery of the process's own probes to capture handles
 	NoOutgoingLoop bool
 	Injected       int // number of faults that fired
+	InjectedAt     []Call
 }
 
 func New(script Script) *Net {
@@ -118,8 +119,18 @@ func (n *Net) fault(op string, handle int) string {
 	k := n.counts[op]
 	n.Calls = append(n.Calls, Call{op, handle, k})
 	for _, f := range n.Faults {
-		if f.Op == op && f.K == k {
+		if f.Op != op {
+			continue
+		}
+		if f.K == k {
 			n.Injected++
+			n.InjectedAt = append(n.InjectedAt, Call{op, handle, k})
+			return f.Class
+		}
+		// K < 0: the position is an enumerated choice: at every call not yet faulted, "fail now" is an alternative
+		if f.K < 0 && n.Injected == 0 && vsched.ChooseFree(2, "fault:"+op) == 1 {
+			n.Injected++
+			n.InjectedAt = append(n.InjectedAt, Call{op, handle, k})
 			return f.Class
 		}
 	}
